@@ -165,7 +165,7 @@ theorem Pm.obs_eq (H : α → α → α) (dflt : α) : Pm.ObsStmt D H dflt := by
       simp only [this, hi, if_true, if_false]
 
 
-theorem Ideal.leaf_cons (dflt : α) (s : Ideal α) (ws : List (Nat × α)) (i : Nat) (v : α) (n : Nat)
+theorem Ideal.pm_leaf_cons (dflt : α) (s : Ideal α) (ws : List (Nat × α)) (i : Nat) (v : α) (n : Nat)
     (lv : List (Nat × Bool)) (j : Nat) :
     Ideal.leaf dflt ({ depth := s.depth, writes := (i, v) :: ws, next := n, live := lv } : Ideal α) j =
       if j = i then v else Ideal.leaf dflt { s with writes := ws } j := by
@@ -186,7 +186,7 @@ theorem Pm.set_core {H : α → α → α} {dflt : α} {t : Pm α D} {s : Ideal 
   · rfl
   · rfl
   · intro j
-    rw [Ideal.leaf_cons]
+    rw [Ideal.pm_leaf_cons]
   · intro j
     simp only [List.lookup_cons]
     by_cases h : j = key
@@ -256,5 +256,119 @@ theorem Pm.delete_rel (H : α → α → α) (dflt : α) : Pm.DeleteStmt D H dfl
     have : Pm.delete H dflt i t = (t, .err) := PmM.bind_err herr
     rw [this, if_neg hi, if_neg hi]
     exact ⟨rfl, hrel⟩
+
+
+/-- a non-empty range write that fits -/
+theorem Pm.setRange_core (S : Type) [MapLike S (Nat × Nat) α] [LawfulMapLike S (Nat × Nat) α]
+    {H : α → α → α} {dflt : α} {t : Pm α D} {s : Ideal α} (hrel : Pm.Rel H dflt t s)
+    (start : Nat) (vs : List α) (hne : vs ≠ []) (hfit : start + vs.length ≤ 2 ^ s.depth) :
+    ∃ t'', Pm.setRange S H start vs t = (t'', .ok ()) ∧
+      Pm.Rel H dflt t''
+        (⟨s.depth, (s.writeMany start vs).writes, max s.next (start + vs.length),
+          (s.writeMany start vs).live⟩ : Ideal α) := by
+  have hd := hrel.depth
+  obtain ⟨t', h1, h2, h3, h4, h5, h6⟩ :=
+    Pm.treeSetRange_spec S H t hrel.inv start vs hne (by rw [hd]; exact hfit)
+  let l := (List.range vs.length).map (start + ·)
+  have hl : ∀ j, j ∈ l ↔ start ≤ j ∧ j < start + vs.length := by
+    intro j
+    simp only [l, List.mem_map, List.mem_range]
+    constructor
+    · rintro ⟨a, ha, rfl⟩; omega
+    · intro h; exact ⟨j - start, by omega, by omega⟩
+  obtain ⟨t'', g1, g2, g3, g4, g5, g6, g7⟩ := Pm.setFlags_spec 1 l t' (by
+    intro i hi
+    rw [hl] at hi
+    rw [h4, hrel.inv.fsize, hd]; omega)
+  refine ⟨t'', ?_, g2 H h2, ?_, ?_, ?_, ?_⟩
+  · unfold Pm.setRange
+    have : vs.isEmpty = false := by cases vs <;> simp at hne ⊢
+    rw [this]
+    simp only [Bool.false_eq_true, if_false]
+    rw [PmM.bind_ok h1]
+    exact g1
+  · show t''.depth = s.depth
+    rw [g3, h3, hd]
+  · show t''.next = max s.next (start + vs.length)
+    rw [g4, h5, hrel.next]
+  · intro j hj
+    have hj' : j < 2 ^ t.depth := by rw [g3, h3] at hj; exact hj
+    rw [g3, g5, h3, h6 j hj']
+    have e : Ideal.leaf dflt (⟨s.depth, (s.writeMany start vs).writes, max s.next (start + vs.length),
+          (s.writeMany start vs).live⟩ : Ideal α) j = (s.writeMany start vs).leaf dflt j := rfl
+    rw [e, Ideal.pm_writeMany_leaf]
+    unfold Pm.newLeaf
+    rw [hrel.leaves j hj']
+    simp
+  · intro j hj
+    have hj' : j < 2 ^ t.depth := by rw [g3, h3] at hj; exact hj
+    show t''.flags[j]! = 0 ↔ ((s.writeMany start vs).live.lookup j).getD false = false
+    rw [g7, Ideal.pm_writeMany_live]
+    by_cases hc : start ≤ j ∧ j < start + vs.length
+    · rw [if_pos ((hl j).mpr hc), if_pos hc]; simp
+    · rw [if_neg (fun h => hc ((hl j).mp h)), if_neg hc, h4]
+      exact hrel.flags j hj'
+
+theorem Pm.setRange_rel (S : Type) [MapLike S (Nat × Nat) α] [LawfulMapLike S (Nat × Nat) α]
+    (H : α → α → α) (dflt : α) : Pm.SetRangeStmt D S H dflt := by
+  intro t s start vs hrel hne
+  unfold PmRefines Ideal.setRange Ideal.cap
+  have hemp : vs.isEmpty = false := by cases vs <;> simp at hne ⊢
+  by_cases hfit : start + vs.length ≤ 2 ^ s.depth
+  · obtain ⟨t'', h1, h2⟩ := Pm.setRange_core D S hrel start vs hne hfit
+    rw [h1, if_pos hfit]
+    simp only [hemp, Bool.false_eq_true, if_false]
+    have e : (s.writeMany start vs).depth = s.depth := Ideal.pm_writeMany_depth s start vs
+    show Pm.Rel H dflt t'' ⟨(s.writeMany start vs).depth, _, _, _⟩
+    rw [e]
+    exact h2
+  · have herr : Pm.treeSetRange S H start vs t = (t, .err) := by
+      unfold Pm.treeSetRange Pm.cap
+      rw [hrel.depth]
+      simp only [if_pos (show start + vs.length > 2 ^ s.depth by omega)]
+    have : Pm.setRange S H start vs t = (t, .err) := by
+      unfold Pm.setRange
+      rw [hemp]
+      simp only [Bool.false_eq_true, if_false]
+      exact PmM.bind_err herr
+    rw [this, if_neg hfit]
+    exact hrel
+
+
+theorem Pm.batch_rel_partial (S : Type) [MapLike S (Nat × Nat) α] [LawfulMapLike S (Nat × Nat) α]
+    (H : α → α → α) (dflt : α) : Pm.BatchStmtPartial D S H dflt := by
+  intro t s start vs hrel
+  match vs with
+  | [] =>
+    have h1 : Pm.overrideRange S H dflt start ([] : List α) [] t = (t, .err) := rfl
+    have h2 : Ideal.batch dflt s start ([] : List α) [] = .err := by
+      unfold Ideal.batch
+      simp
+    rw [h1, h2]
+    exact hrel
+  | [v] =>
+    have h1 : Pm.overrideRange S H dflt start [v] [] t = Pm.set H start v t := rfl
+    have h2 : Ideal.batch dflt s start [v] [] = Ideal.set s start v := by
+      unfold Ideal.batch Ideal.set
+      by_cases hc : start < s.cap
+      · have : ¬ (start + 1 > s.cap) := by omega
+        simp [hc, this, Ideal.removeMany, Ideal.writeMany]
+      · have : start + 1 > s.cap := by omega
+        simp [hc, this]
+    rw [h1, h2]
+    exact Pm.set_rel D H dflt t s start v hrel
+  | a :: b :: r =>
+    have h1 : Pm.overrideRange S H dflt start (a :: b :: r) [] t = Pm.setRange S H start (a :: b :: r) t := rfl
+    have h2 : Ideal.batch dflt s start (a :: b :: r) [] = Ideal.setRange s start (a :: b :: r) := by
+      unfold Ideal.batch Ideal.setRange
+      by_cases hc : start + (a :: b :: r).length ≤ s.cap
+      · simp only [List.length_cons] at hc
+        have : ¬ (s.cap < start + (r.length + 1 + 1)) := by omega
+        simp [hc, this, Ideal.removeMany]
+      · simp only [List.length_cons] at hc
+        have : s.cap < start + (r.length + 1 + 1) := by omega
+        simp [hc, this]
+    rw [h1, h2]
+    exact Pm.setRange_rel D S H dflt t s start (a :: b :: r) hrel (by simp)
 
 end Zk.Tree
